@@ -831,7 +831,7 @@ class Twist3(SMTwist):
             >>> S = Twist3(T)
             >>> S.line()
         """
-        return Plucker([Plucker(-tw.v - tw.pitch() * tw.w, tw.w) for tw in self])
+        return Plucker([Plucker(-tw.v + tw.pitch() * tw.w, tw.w) for tw in self])
 
     def pole(self):
         """
